@@ -800,7 +800,7 @@ fn chainmul1024(rng: &mut Rng, iters: u64) {
     let f192: Vec<u64> = vec![9, 5, 7, 13, 17, 97, 193, 241, 257, 641, 673, 65537, 6700417, 22253377, 18446744069414584321];
     let mut sets: Vec<Vec<u64>> = vec![f128.clone(), f192.clone(), vec![u64::MAX, u64::MAX], vec![u64::MAX; 15], vec![1 << 63; 16], vec![(1 << 32) + 1; 16]];
     let mut both = f128.clone(); both.extend(f192.iter()); sets.push(both);
-    for _ in 0..iters.min(400) {
+    for _ in 0..iters.min(5000) {
         let k = 1 + rng.next() % 16;
         sets.push((0..k).map(|i| match (rng.next() + i) % 4 { 0 => rng.word() | 1, 1 => u64::MAX - rng.next() % 4, 2 => 1 << (rng.next() % 64), _ => rng.next() | 1 }).collect());
     }
@@ -846,7 +846,7 @@ fn polyops(rng: &mut Rng, iters: u64) {
     use yamaquasi::arith_fft::convolve_modn;
     use yamaquasi::arith_montgomery::{MInt, ZmodN};
     use yamaquasi::arith_poly::{Poly, PolyRing};
-    let rounds = (iters / 100).clamp(2, 12);
+    let rounds = (iters / 100).clamp(2, 300);
     for round in 0..rounds {
         for bits in [61u32, 140, 151, 160, 190, 300, 480] {
             // a random odd modulus of that size
@@ -1013,7 +1013,7 @@ fn relstore(rng: &mut Rng, iters: u64) {
             }
         }
     };
-    for it in 0..(iters / 10).clamp(5, 60) {
+    for it in 0..(iters / 10).clamp(5, 3000) {
         let r = catch_unwind(AssertUnwindSafe(|| {
             let mut rs = RelationSet::new(n, 8, 100000);
             let p = larges[(rng.next() % 6) as usize];
@@ -1084,7 +1084,7 @@ fn stage2edge(rng: &mut Rng, iters: u64) {
         let amin = b1 / d1 + 1;
         let mut cands: Vec<u64> = vec![];
         let mut avals = vec![d2 - 1, d2 - 2, amin, amin + 1, d2 / 2, d2 / 2 + 1];
-        for _ in 0..(if quick { 2 } else { 12 }) { avals.push(amin + rng.next() % (d2 - amin)); }
+        for _ in 0..(if quick { 2 } else if iters < 50000 { 12 } else { 60 }) { avals.push(amin + rng.next() % (d2 - amin)); }
         for &a in &avals {
             let mut bvals = vec![bs[0], bs[bs.len() - 1], bs[bs.len() - 2], bs[1]];
             for _ in 0..2 { bvals.push(bs[(rng.next() as usize) % bs.len()]); }
@@ -1121,7 +1121,7 @@ fn stage2edge(rng: &mut Rng, iters: u64) {
         let mut cands: Vec<u64> = vec![];
         let mut l = b1 + 1; while cands.len() < 3 { if is_prime_td_big(l) { cands.push(l); } l += 1; }
         let mut l = hi; let mut k = 0; while k < 3 { if is_prime_td_big(l) { cands.push(l); k += 1; } l -= 1; }
-        for _ in 0..(if quick { 6 } else { 40 }) { let mut l = b1 + 1 + rng.next() % (hi - b1 - 1); while !is_prime_td_big(l) { l += 1; } if !cands.contains(&l) { cands.push(l); } }
+        for _ in 0..(if quick { 6 } else if iters < 50000 { 40 } else { 200 }) { let mut l = b1 + 1 + rng.next() % (hi - b1 - 1); while !is_prime_td_big(l) { l += 1; } if !cands.contains(&l) { cands.push(l); } }
         for &l in &cands {
             let Some(&m) = ms.iter().find(|&&m| is_prime_td_big(m * l + 1)) else { continue };
             let p = m * l + 1;
@@ -1140,9 +1140,85 @@ fn stage2edge(rng: &mut Rng, iters: u64) {
     }
 }
 
+
+/// C12 probe (bounded stand-in for the parts of MPQS that are not under contract: sieve_for_polys, make_poly, eval):
+/// every polynomial satisfies y^2 = P(x) (mod n), and prepare_prime returns exactly the roots of P(offset + x) modulo
+/// every odd factor-base prime (checked by brute force for the small ones), also when D is inside the factor base
+fn mpqsroots(rng: &mut Rng, iters: u64) {
+    use bnum::types::{I256, U256};
+    use bnum::cast::CastFrom;
+    use yamaquasi::arith::Inverter;
+    use yamaquasi::fbase::FBase;
+    use yamaquasi::mpqs::{make_poly, sieve_for_polys};
+    type Int = bnum::types::I1024;
+    fn modinv(a: u64, p: u64) -> u64 { let (mut r, mut b, mut e) = (1u64, a % p, p - 2); while e > 0 { if e & 1 == 1 { r = r * b % p; } b = b * b % p; e >>= 1; } r }
+    let sizes: &[u32] = if iters < 1000 { &[40, 64, 100, 160] } else { &[24, 32, 40, 50, 64, 80, 100, 128, 160, 200, 250] };
+    for &bits in sizes {
+        for round in 0..(if iters < 1000 { 1 } else { 4 }) {
+            let mut n = Uint::ONE;
+            for _ in 0..bits / 60 + 1 { n = (n << 60u32) + Uint::from(rng.word() >> 4); }
+            n = (n >> (n.bits() - bits)) | Uint::ONE | (Uint::ONE << (bits - 1));
+            if round % 2 == 1 { n = n | Uint::from(3u64); }
+            if yamaquasi::pseudoprime(n) { n = n + Uint::from(4u64); }
+            let fb = FBase::new(Int::from_bits(n), 60);
+            // D around n^(1/4) / 64, at least 11 (so that D^2 < n)
+            let root4 = { let mut lo = 1u128; while Uint::from(lo * lo) * Uint::from(lo * lo) <= n && lo < (1 << 60) { lo *= 2; } lo / 2 };
+            let bmin = (root4 / 64).max(11);
+            let polys = match catch_unwind(AssertUnwindSafe(|| sieve_for_polys(&n, bmin, 300))) {
+                Ok(v) => v,
+                Err(_) => fail("mpqsroots", format!("sieve_for_polys({n}, {bmin}, 300): panic")),
+            };
+            for (d, r) in polys.into_iter().take(3) {
+                if Uint::from(d) * Uint::from(d) >= n { continue; }
+                let res = catch_unwind(AssertUnwindSafe(|| {
+                    let pol = make_poly(&n, d, &r);
+                    // defining identity: y^2 = P(x) modulo n
+                    for x in [-50000i64, -1000, -1, 0, 1, 7, 12345] {
+                        let (v, y) = pol.eval(x);
+                        let vabs = Uint::cast_from(v.unsigned_abs()) % n;
+                        let vmod = if v.is_negative() && vabs != Uint::ZERO { n - vabs } else { vabs };
+                        if (y % n) * (y % n) % n != vmod {
+                            return Err(format!("make_poly(n = {n}, D = {d}).eval({x}) = (P, y) with y^2 mod n = {} but P mod n = {vmod}", (y % n) * (y % n) % n));
+                        }
+                    }
+                    let offset: i32 = -32768;
+                    for i in 0..fb.len() {
+                        let p = fb.p(i) as u64;
+                        if p == 2 { continue; }
+                        let inv = Inverter::new(p as u32);
+                        let dinv = if d % p as u128 == 0 { 0 } else { modinv((d % p as u128) as u64, p) as u32 };
+                        let (r1, r2) = pol.prepare_prime(p as u32, fb.r(i), fb.div(i), &inv, dinv, offset);
+                        let pval = |x: i64| -> u64 { let v: I256 = pol.eval(x).0; (v.unsigned_abs() % U256::from(p)).digits()[0] };
+                        for rt in [r1, r2] {
+                            if rt as u64 >= p || pval(offset as i64 + rt as i64) != 0 {
+                                return Err(format!("make_poly(n = {n}, D = {d}).prepare_prime(p = {p}, r = {}, dinv = {dinv}, offset {offset}) = ({r1}, {r2}): P(offset + {rt}) mod p = {}", fb.r(i), pval(offset as i64 + rt as i64)));
+                            }
+                        }
+                        if p < 300 {
+                            for x in 0..p {
+                                let is_root = pval(offset as i64 + x as i64) == 0;
+                                if is_root != (x == r1 as u64 || x == r2 as u64) {
+                                    return Err(format!("make_poly(n = {n}, D = {d}).prepare_prime(p = {p}, ..) = ({r1}, {r2}) but P(offset + {x}) mod p {} 0", if is_root { "==" } else { "!=" }));
+                                }
+                            }
+                        }
+                    }
+                    Ok(())
+                }));
+                match res {
+                    Err(_) => fail("mpqsroots", format!("make_poly / eval / prepare_prime (n = {n}, D = {d}): panic")),
+                    Ok(Err(e)) => fail("mpqsroots", e),
+                    Ok(Ok(())) => {}
+                }
+            }
+        }
+    }
+}
+
 pub fn run(case: &str, rng: &mut Rng, iters: u64) -> bool {
     match case {
         "pp1" => pp1_case(),
+        "mpqsroots" => mpqsroots(rng, iters),
         "stage2edge" => stage2edge(rng, iters),
         "relstore" => relstore(rng, iters),
         "polyops" => polyops(rng, iters),
